@@ -33,9 +33,28 @@ def gen(rng, tier):
         if len(ops) > 1:
             yield tab.line(ops)
 
+def top_of_space(rng, count):
+    """iteration windows that end exactly at the top of the 32-bit address space (addr + n = 2^32) or one below, over ordinary
+    tables: "everything from addr on".  (Areas that themselves end at 2^32 are outside the domain: the module computes area and
+    register ends in 32-bit arithmetic, where such an end is 0.)"""
+    TOP = 2**32
+    for _ in range(count):
+        tab = family_table(rng)
+        lo, hi = tab.window()
+        ops = [(0,)]
+        for addr in list(range(lo, hi + 1)) + [1, 2, 2**31, TOP - 2, TOP - 1]:
+            if 1 <= addr < TOP:        # the length must fit the 32-bit offset type
+                ops.append((9, addr, TOP - addr))
+                if TOP - addr - 1 > 0:
+                    ops.append((9, addr, TOP - addr - 1))
+                scr = rng.choice([(1, 1, 1, 0), (1, 2), (0,), (1, 1, 2)])
+                ops.append((9, addr, TOP - addr) + scr)
+        yield tab.line(ops)
+
 _gen0 = gen
 def gen(rng, tier):
     yield from _gen0(rng, tier)
+    yield from top_of_space(rng, 60 if tier == 'thorough' else 12)
     yield from reinit_histories(rng, 300 if tier == 'thorough' else 40)
 
 def nontrivial(c):
